@@ -49,6 +49,12 @@ def replay(rec: Dict[str, Any]) -> List[Tuple[str, Dict[str, Any], str]]:
             f.append("forbidden")
         return "+".join(f) or "plain"
 
+    if "\\" in rel or "%" in rel:
+        # the same text read once with every decoding option on: how a text is read belongs to the call it is given to
+        try:
+            JSONPointer(base, unicode_escape=False).to(rel, unicode_escape=True, uri_decode=True)
+        except BaseException:  # noqa: BLE001
+            pass
     for ue in ((True, False) if "\\" not in rel + base else (False,)):      # a backslash is an ordinary character only with escape decoding off
         try:
             r = RelativeJSONPointer(rel, unicode_escape=ue)
